@@ -599,7 +599,37 @@ pub fn scenario_runs(k: u64, verif_seed: u64) -> Vec<RunSpec> {
                 }
                 ops.push(Op::Build { slot: i });
             }
-            vec![spec(vec![ops], &mut rng, vec![], "run-to-completion")]
+            // counter wrap-around: a probe input is used once, then exactly 256 (and later 512, 65,536 is out of
+            // reach) configuration changes happen on other inputs, cycling through three configurations so that the
+            // probe meets a different configuration than the first time
+            let cycle: Vec<Vec<Setter>> = vec![vec![Setter::Digits], vec![Setter::Words], vec![Setter::Spaces, Setter::NonWords]];
+            let probe: Vec<String> = vec!["q7".into(), "r 8".into()];
+            let other: Vec<String> = vec!["x1".into(), "y2".into()];
+            let mut slot = 1120usize;
+            let mut push_build = |ops: &mut Vec<Op>, cases: &Vec<String>, m: &Vec<Setter>| {
+                ops.push(Op::New { slot, cases: cases.clone() });
+                for st in m {
+                    ops.push(Op::Set { slot, setter: st.clone() });
+                }
+                ops.push(Op::Build { slot });
+                slot += 1;
+            };
+            let mut wrap_ops = vec![];
+            let mut j = 0usize; // index of the configuration in force
+            push_build(&mut wrap_ops, &probe, &cycle[0]);
+            for round in 0..2 {
+                let _ = round;
+                for _ in 0..256 {
+                    j += 1;
+                    push_build(&mut wrap_ops, &other, &cycle[j % 3]);
+                }
+                // the probe again, under the configuration in force (no further change)
+                push_build(&mut wrap_ops, &probe, &cycle[j % 3]);
+            }
+            vec![
+                spec(vec![ops], &mut rng, vec![], "run-to-completion"),
+                spec(vec![wrap_ops], &mut rng, vec![], "run-to-completion"),
+            ]
         }
     }
 }
